@@ -455,6 +455,7 @@ class RecocoIOLoop (Task):
           worker._do_recv(self)
 
         for worker in wlist:
+          if worker.closed: continue # Closed while its input was handled
           worker._do_send(self)
 
       except GeneratorExit:
